@@ -218,6 +218,16 @@ func runC20(ctx *vh.Ctx) error {
 	ctx.Res.Rule = "construction sequences over <=5 nodes (+ injected ones) from the 9-type menu, random call order, one violation of a random kind at a random position in ~55% of the graph-stream cases, Add*/re-Compile after Compile, 20 fresh re-executions of every sequence; chain and workflow streams with deferred errors and re-Compile; non-trivial = at least 4 successful calls before the first error, or the graph compiled; distinct by (stream, graph types, state, call sequence)"
 	repeats := 20
 	if ctx.Replay != nil {
+		var probe struct {
+			Stream string `json:"stream"`
+		}
+		if json.Unmarshal(ctx.Replay, &probe) == nil && probe.Stream == "decl" {
+			var dc c20DCase
+			if err := json.Unmarshal(ctx.Replay, &dc); err != nil {
+				return err
+			}
+			return c20DOne(ctx, &dc, repeats)
+		}
 		var c c20Case
 		if err := json.Unmarshal(ctx.Replay, &c); err != nil {
 			return err
@@ -227,6 +237,18 @@ func runC20(ctx *vh.Ctx) error {
 	// fixed scenarios first (known shapes, incl. the recompile defect)
 	for _, c := range c20Fixed() {
 		if err := c20One(ctx, c, repeats); err != nil {
+			return err
+		}
+	}
+	// declarations above the builder: Workflow API, graphs as nodes (Model/C20Wf.lean)
+	for _, c := range c20DFixed() {
+		if err := c20DOne(ctx, c, repeats); err != nil {
+			return err
+		}
+	}
+	nd := ctx.N(4000, 30000)
+	for i := 0; i < nd && ctx.TimeLeft(); i++ {
+		if err := c20DOne(ctx, c20DGen(ctx.Rng), 5); err != nil {
 			return err
 		}
 	}
